@@ -409,6 +409,7 @@ def _decide(ob, tier, res):
         paths = explorer.run(fn)
     res['paths'] = len(paths)
     res['explorer'] = dict(explorer.stats)
+    ob._input_names = list(mk.vals)
     if explorer.stats['capped']:
         res['inconclusive'].append({'label': '*', 'reason': 'path cap %d reached' % ob.max_paths})
     if not paths:
@@ -647,15 +648,42 @@ def z3not(z):
     return z3.Not(z)
 
 
-def _nice(enc):
+def _nice(enc, allow_zero=True):
     """soft preference for moderate witness values (tried first, dropped if unsat)"""
     import z3
     out = []
     for name, v in list(enc.vars.items()):
         if name in ('PI', 'EULER') or '!' in name:
             continue
-        out.append(z3.And(v <= 64, v >= -64, z3.Or(v >= z3.RealVal('1/64'), v <= z3.RealVal('-1/64'), v == 0)))
+        nz = z3.Or(v >= z3.RealVal('1/64'), v <= z3.RealVal('-1/64'))
+        out.append(z3.And(v <= 64, v >= -64, z3.Or(nz, v == 0) if allow_zero else nz))
     return out
+
+
+def _nice_soft(enc, s_assert, timeout_s):
+    """a model of s_assert in which as many variables as possible are moderate and non-zero (greedy)"""
+    import z3
+    vs = [(n, v) for n, v in enc.vars.items() if n not in ('PI', 'EULER') and '!' not in n]
+    s = z3.Solver()
+    s.set('timeout', int(timeout_s * 1000))
+    for a in s_assert:
+        s.add(a)
+    for ax in enc.axioms:
+        s.add(ax)
+    if str(s.check()) != 'sat':
+        return None
+    t0 = time.time()
+    for n, v in vs:
+        if time.time() - t0 > timeout_s:
+            break
+        s.push()
+        s.add(z3.And(v <= 64, v >= -64, z3.Or(v >= z3.RealVal('1/64'), v <= z3.RealVal('-1/64'))))
+        if str(s.check()) != 'sat':
+            s.pop()
+    if str(s.check()) != 'sat':
+        return None
+    m = s.model()
+    return {name: smt.z3val_to_fraction(m.eval(v, model_completion=True)) for name, v in enc.vars.items()}
 
 
 def _robust_pc(p):
@@ -763,10 +791,16 @@ def _handle_witness(ob, enc, c, ct, zc, zbase, v, label, res, cache):
         if v2.status == 'sat':
             model = v2.model
     else:
-        v2 = smt.solve(enc, zbase + [z3.Not(zc)] + _nice(enc), min(ob.timeout_s, 10), label=ob.id + ':' + label + ':robust')
+        v2 = smt.solve(enc, zbase + [z3.Not(zc)] + _nice(enc, False), min(ob.timeout_s, 10), label=ob.id + ':' + label + ':robust')
         if v2.status == 'sat':
             model = v2.model
+        else:
+            m2 = _nice_soft(enc, zbase + [z3.Not(zc)], min(ob.timeout_s, 5))
+            if m2 is not None:
+                model = m2
     env = {k: val for k, val in frac_env(model).items() if '!' not in k and '#' not in k}
+    for nm in getattr(ob, '_input_names', ()):
+        env.setdefault(nm, 1.0)         # inputs the violated formula does not mention: any value
     rep = replay_claim(ob, env, c.label, cache)
     entry = {'obligation': ob.id, 'label': c.label, 'claim': label, 'assertion': T.show(ct, 400),
              'witness': {k: str(val) for k, val in model.items() if '!' not in k},
